@@ -35,6 +35,7 @@ type c08Chain struct {
 	Terms []c08Term `json:"terms"`
 	Break []bool    `json:"break"`           // newline before operator i
 	Space []int     `json:"space,omitempty"` // spacing of operator i: 0 "a - b", 1 "a -b", 2 "a- b", 3 "a-b" (arithmetic only)
+	After []bool    `json:"after,omitempty"` // newline AFTER operator i (fc rejects this layout today; if a tree accepts it, the table still decides the grouping)
 }
 
 func c08AtomFo(n int) string {
@@ -63,7 +64,9 @@ func (t *c08Term) fo() string {
 func (c *c08Chain) fo(ind string) string {
 	s := c.First.fo()
 	for i, o := range c.Ops {
-		if ind != "" && i < len(c.Break) && c.Break[i] {
+		if ind != "" && i < len(c.After) && c.After[i] {
+			s += " " + o + "\n" + ind + c.Terms[i].fo()
+		} else if ind != "" && i < len(c.Break) && c.Break[i] {
 			s += "\n" + ind + o + " " + c.Terms[i].fo()
 		} else {
 			sp := 0
@@ -374,6 +377,19 @@ func runC08(c *Ctx) {
 		}
 		cases = append(cases, c08Case{Chain: ch})
 	}
+	// a line break AFTER an operator: today fc rejects it ("Unown atom"); a tree that accepts it must
+	// still group by the table
+	for i := 0; i < c.Pick(400, 4000); i++ {
+		n := 2 + rng.Intn(3)
+		ops := make([]string, n)
+		for j := range ops {
+			ops[j] = Choose(rng, c08Ops)
+		}
+		ch := c08AtomChain(ops)
+		ch.After = make([]bool, n)
+		ch.After[rng.Intn(n)] = true
+		cases = append(cases, c08Case{Chain: ch})
+	}
 	if c.Replay != "" {
 		cases = c08LoadReplay(c.Replay)
 	}
@@ -433,7 +449,12 @@ func runC08(c *Ctx) {
 		if n > len(cases) {
 			n = len(cases)
 		}
-		idx := rng.Perm(len(cases))[:n]
+		var idx []int
+		for _, i := range rng.Perm(len(cases)) {
+			if len(idx) < n && len(cases[i].Chain.After) == 0 {
+				idx = append(idx, i)
+			}
+		}
 		for _, i := range idx {
 			src.WriteString(c08Func(cases[i].Name, cases[i].Chain))
 		}
@@ -463,6 +484,19 @@ func runC08(c *Ctx) {
 			c.Sample(map[string]any{"source": srcText, "grouping_from_emitted_go": got[i], "model": model})
 		}
 		real := got[i]
+		if len(cs.Chain.After) > 0 {
+			// outside the model's token grammar: the property only
+			if strings.HasPrefix(real, "REJECTED") {
+				c.Count("break_after_operator=rejected")
+				continue
+			}
+			c.Count("break_after_operator=accepted")
+			if real != expect {
+				c.Violate("group", fmt.Sprintf("grouping differs from the published table (operator at the end of a line): expected %s, fc emitted %s", expect, real),
+					map[string]any{"chain": cs.Chain, "source": srcText, "expected": expect, "fc": real}, false)
+			}
+			continue
+		}
 		if real == expect {
 			if model != expect+" rest=0" {
 				c.Disagree()
